@@ -18,6 +18,16 @@ macro_rules! unsafe_linear_float_to_encoded_uint {
             {
                 debug_assert!($table.get(i).is_some());
             }
+            #[cfg(palette_verif)]
+            {
+                assert!(
+                    i < $table.len(),
+                    "palette_verif: lookup table index {} out of range (len {}) for input bits {:#x}",
+                    i,
+                    $table.len(),
+                    input_bits
+                );
+            }
             *$table.get_unchecked(i)
         };
 
